@@ -6,6 +6,10 @@ def T(shards=8, procs=2, timeout=600, **kw):
     return d
 
 CHECKS = {
+    "C16": {"pkg": "c16", "level": "exploration",
+            "quick": T(8, 2, 900, unconfirmed_is_violation=True, race={"shards": 4, "procs": 4, "timeout": 600, "only": "concurrent-api"}),
+            "thorough": T(14, 1, 3000, unconfirmed_is_violation=True, race={"shards": 8, "procs": 2, "timeout": 1500, "only": "concurrent-api"}),
+            "assumptions": ["placements relative to protocol events and virtual time are generated; goroutine interleavings are whatever the scheduler and repeated runs produce", "error class judged loosely (closed / EOF / net.ErrClosed / context)"]},
     "C19": {"pkg": "c19", "level": "exploration",
             "quick": T(8, 2, 600), "thorough": T(14, 1, 2400),
             "assumptions": ["export points are quiescent points (no Write racing the export)", "a corruption is judged 'semantically intact' by re-decoding the bytes through a gob mirror of the serialised layout"]},
